@@ -26,7 +26,8 @@ What is a violation (and what is not):
   * expected unresolved: a location in any file other than the importing file itself -> violation (the import resolved to
     a module that is not visible); null / empty / an error response are all accepted (the property does not demand a
     diagnostic, and panics on broken programs belong to C10);
-  * URIs are compared after lexical normalisation ("app/../lib" names the same file as "lib").
+  * URIs are compared after lexical normalisation ("app/../lib" names the same file as "lib"); a correct target spelled
+    with ".." is reported separately as "non-canonical target URI" (known finding C17-F2: the file is held twice).
 """
 import concurrent.futures, json, os, shutil, threading
 from urllib.parse import unquote
@@ -306,6 +307,11 @@ class CaseRun:
                 invisible = any(os.path.normpath(self.abspath(d)) == n for d in p["decoys"] for (n, _, _) in locs)
                 self.bad(dict(feats, what="wrong target", got_is_same_named_module=invisible), got=got, **where)
                 return
+            raw = [r for (_, _, r) in locs if norm_uri(r) != unquote(r[len("file://"):])]
+            if raw:
+                # right file, but named through another package's directory ("app/../lib/src/m.gleam"): the server holds the
+                # file a second time under that path, i.e. the file belongs to two package roots at once
+                self.bad(dict(feats, what="non-canonical target URI"), got=[r.replace(self.root, "") for r in raw], **where)
             if p["member"]:
                 d = self.tree.defs[tuple(p["target"])][p["member"]]
                 if not any(rg and overlaps(rg, *d) for (_, rg, _) in locs):
